@@ -3,6 +3,7 @@ package props
 import (
 	"fmt"
 	"go/token"
+	"go/types"
 	"sort"
 
 	"mrocheck/an"
@@ -222,4 +223,155 @@ func endsInPanic(b *ssa.BasicBlock) bool {
 		}
 	}
 	return false
+}
+
+// c19StaticReach: root, its static callees and closures inside package refactoring, and the Apply /
+// apply methods of the edit values constructed on the way (no dynamic dispatch through editSet).
+func c19StaticReach(c *an.Ctx, root *ssa.Function) map[*ssa.Function]bool {
+	p := c.P
+	refacPath := an.ModPath + pkgRefac
+	seen := map[*ssa.Function]bool{}
+	var walk func(fn *ssa.Function)
+	walk = func(fn *ssa.Function) {
+		if fn == nil || seen[fn] || fn.Blocks == nil {
+			return
+		}
+		if pk := fn.Package(); pk == nil || pk.Pkg.Path() != refacPath {
+			return
+		}
+		seen[fn] = true
+		for _, a := range fn.AnonFuncs {
+			walk(a)
+		}
+		an.Instrs(fn, func(in ssa.Instruction) {
+			if cl := an.AsCallAny(in); cl != nil {
+				walk(cl.Common().StaticCallee())
+			}
+			if mi, ok := in.(*ssa.MakeInterface); ok {
+				for _, name := range []string{"Apply", "apply"} {
+					if sel := p.SSA.MethodSets.MethodSet(mi.X.Type()).Lookup(fn.Pkg.Pkg, name); sel != nil {
+						if o, ok := sel.Obj().(*types.Func); ok {
+							walk(p.SSA.FuncValue(o))
+						}
+					}
+				}
+			}
+		})
+	}
+	walk(root)
+	return seen
+}
+
+// G8: renaming an input looks at wildcard bindings.  `call S(* = self)` supplies S's inputs BY NAME
+// from the enclosing pipeline's inputs; renaming S.x (or P.x) changes which names match.  The
+// compiler's expansion of the wildcard exists only in the compiled AST, while the edits are replayed
+// on the source, which only has `* = self`.  A rename-input mechanism that never compares a
+// binding id with "*" cannot notice that the binding it is about to rewrite is supplied by a
+// wildcard: the edit silently does nothing and the result fails with ArgumentNotSuppliedError.
+func ruleG8(c *an.Ctx, sp *ssa.Package) {
+	p := c.P
+	root := sp.Func("RenameInput")
+	bindId := p.Field(pkgSyntax, "BindStm", "Id")
+	if root == nil || bindId == nil {
+		c.Info("G8", "anchor(RenameInput, BindStm.Id)", token.NoPos, "not found: not decided")
+		return
+	}
+	reach := c19StaticReach(c, root)
+	where := ""
+	for fn := range reach {
+		an.Instrs(fn, func(in ssa.Instruction) {
+			b, ok := in.(*ssa.BinOp)
+			if !ok || (b.Op != token.EQL && b.Op != token.NEQ) {
+				return
+			}
+			if (an.LoadsField(b.X, bindId) && an.IsStringConst(b.Y, "*")) || (an.LoadsField(b.Y, bindId) && an.IsStringConst(b.X, "*")) {
+				where = an.FnName(fn)
+			}
+		})
+	}
+	detail := "the wildcard is recognised in " + where
+	if where == "" {
+		detail = "nothing in the RenameInput mechanism (static callees, closures, Apply methods of the edits it creates) compares a binding id with \"*\": an input that a caller supplies through `call S(* = self)` is renamed without the caller being adjusted, and the edited program fails with ArgumentNotSuppliedError"
+	}
+	c.Check("G8", "wildcard-bindings-considered@RenameInput", root.Pos(), where != "", detail)
+	c.Note("G8: %d functions in the static reach of RenameInput", len(reach))
+}
+
+// G9: the unused-output analysis follows CALLS, not only references.  RemoveUnusedOutputs marks an
+// output used when something refers to it and visits a pipeline to collect the references made
+// inside it.  A pipeline that is called but whose own outputs nobody refers to must be visited all
+// the same - the calls inside it refer to the outputs of the pipelines THEY call.  Necessary
+// condition: the work-list of pipelines to visit (a map with *syntax.Pipeline values) is extended
+// with a value looked up under the id of an element of Pipeline.Calls (CallStm.Id), not only under
+// the id found in a reference (RefExp.Id).
+func ruleG9(c *an.Ctx, sp *ssa.Package) {
+	p := c.P
+	root := sp.Func("RemoveUnusedOutputs")
+	callId := p.Field(pkgSyntax, "CallStm", "Id")
+	if root == nil || callId == nil {
+		c.Info("G9", "anchor(RemoveUnusedOutputs, CallStm.Id)", token.NoPos, "not found: not decided")
+		return
+	}
+	reach := c19StaticReach(c, root)
+	isPipelinePtr := func(t types.Type) bool {
+		pt, ok := t.(*types.Pointer)
+		if !ok {
+			return false
+		}
+		n, ok := pt.Elem().(*types.Named)
+		return ok && n.Obj().Name() == "Pipeline"
+	}
+	nUpd, byCall := 0, ""
+	for fn := range reach {
+		an.Instrs(fn, func(in ssa.Instruction) {
+			mu, ok := in.(*ssa.MapUpdate)
+			if !ok {
+				return
+			}
+			mt, ok := mu.Map.Type().Underlying().(*types.Map)
+			if !ok || !isPipelinePtr(mt.Elem()) {
+				return
+			}
+			nUpd++
+			// the stored pipeline: type assertion of a look-up keyed by CallStm.Id ?
+			seen := map[ssa.Value]bool{}
+			var fromCallId func(v ssa.Value, d int) bool
+			fromCallId = func(v ssa.Value, d int) bool {
+				if v == nil || seen[v] || d > 8 {
+					return false
+				}
+				seen[v] = true
+				switch x := v.(type) {
+				case *ssa.Extract:
+					return fromCallId(x.Tuple, d+1)
+				case *ssa.TypeAssert:
+					return fromCallId(x.X, d+1)
+				case *ssa.Lookup:
+					return an.LoadsField(x.Index, callId)
+				case *ssa.Phi:
+					for _, e := range x.Edges {
+						if fromCallId(e, d+1) {
+							return true
+						}
+					}
+				case *ssa.Call:
+					for _, a := range x.Call.Args {
+						if fromCallId(a, d+1) {
+							return true
+						}
+					}
+				}
+				return false
+			}
+			if fromCallId(mu.Value, 0) {
+				byCall = an.FnName(fn)
+			}
+		})
+	}
+	c.Floor("G9", "insertions into the work-list of pipelines to visit", nUpd, 1)
+	detail := "called pipelines are queued in " + byCall
+	if byCall == "" {
+		detail = "a pipeline enters the work-list of RemoveUnusedOutputs only when something refers to one of its outputs: a pipeline that is called but whose outputs nobody references is never visited, the references made inside it do not count, and outputs they use are removed (NoSuchOutputError in the edited program)"
+	}
+	c.Check("G9", "called-pipelines-are-visited@RemoveUnusedOutputs", root.Pos(), byCall != "", detail)
 }
